@@ -77,6 +77,7 @@ type World struct {
 	Mons []Monitor
 
 	menu              []opGen
+	hostileQueued     map[string]int
 	lastRefresh       time.Time
 	NoKeepAlive       bool
 	propsThisStep     int
